@@ -93,12 +93,21 @@ class Evaluator:
         # 3. Prepare the execution environment and evaluate the formula.
         #    (Note: Range nodes will automatically evaluate all their
         #           dependencies.)
+        top_level = context is None
         context = context if context is not None else self._get_context(addr)
         try:
             value = cell.formula.ast.eval(context)
         except CycleError:
             raise
         except Exception as err:
+            if top_level and self._is_recursion_error(err):
+                # The chain of cells is too long for the interpreter to
+                # follow it to its end. If it is a cycle, say so.
+                cycle = self._find_cycle(addr)
+                if cycle:
+                    raise CycleError(
+                        f'Cycle detected for {cycle[0]}:\n- '
+                        + '\n- '.join(cycle)) from None
             # Note: Using `repr(err)` here would escape the quotes of the
             # nested message at every level and double its size.
             raise RuntimeError(
@@ -113,6 +122,51 @@ class Evaluator:
         cell.need_update = False
 
         return value
+
+    @staticmethod
+    def _is_recursion_error(err):
+        while err is not None:
+            if isinstance(err, RecursionError):
+                return True
+            err = err.__cause__ or err.__context__
+        return False
+
+    def _precedents(self, addr):
+        cell = self.model.cells.get(addr)
+        if cell is None or cell.formula is None:
+            return []
+        addrs = []
+        for term in cell.formula.terms:
+            if term in self.model.ranges:
+                for row in self.model.ranges[term].cells:
+                    addrs.extend(row)
+            else:
+                addrs.append(term)
+        return addrs
+
+    def _find_cycle(self, addr):
+        """The cells of a cycle that can be reached from `addr`, if any.
+
+        (Depth first, without recursion: this is used when the interpreter's
+        own stack was not deep enough.)
+        """
+        path, on_path, done = [addr], {addr}, set()
+        pending = [iter(self._precedents(addr))]
+        while pending:
+            for nxt in pending[-1]:
+                if nxt in on_path:
+                    return path[path.index(nxt):] + [nxt]
+                if nxt not in done:
+                    path.append(nxt)
+                    on_path.add(nxt)
+                    pending.append(iter(self._precedents(nxt)))
+                    break
+            else:
+                pending.pop()
+                finished = path.pop()
+                on_path.discard(finished)
+                done.add(finished)
+        return None
 
     def set_cell_value(self, address, value):
         """Sets the value of a cell in the model."""
